@@ -97,7 +97,13 @@ func vC08Setup() *vC08 {
 	c.h = fdohttp.Handler{
 		Tokens: c.w,
 		DIResponder: &DIServer[int]{Session: c.w, Vouchers: c.w,
-			SignDeviceCertificate: nil, DeviceInfo: nil, RvInfo: nil},
+			SignDeviceCertificate: func(*int) ([]*x509.Certificate, error) {
+				return []*x509.Certificate{(*x509.Certificate)((*c.ov.CertChain)[0])}, nil
+			},
+			DeviceInfo: func(context.Context, *int, []*x509.Certificate) (string, protocol.PublicKey, error) {
+				return "d", c.ov.Header.Val.ManufacturerKey, nil
+			},
+			RvInfo: func(context.Context, *Voucher) ([][]protocol.RvInstruction, error) { return nil, nil }},
 		TO0Responder: &TO0Server{Session: c.w, RVBlobs: c.w},
 		TO1Responder: &TO1Server{Session: c.w, RVBlobs: c.w},
 		TO2Responder: &TO2Server{Session: c.w, Modules: &vModules{c.w}, Vouchers: c.w, OwnerKeys: c.w,
